@@ -124,4 +124,87 @@ def FPlainI (mm : MixedMode) : FItems → Prop
     FPlainI (if closesV v then .disabled else if mm = .keyed then .started else mm) rest
 end
 
+/-! #### C15: the call list that writes a document -/
+
+/-- the operator call of an object field (`=` is left implicit) -/
+def opCallsT (o : TextTape.Op) : List Call := if o = .eq then [] else [.operator (opW o)]
+
+mutual
+/-- the public calls that write the document: `write_object_start` / `write_array_start`, scalars through
+`write_unquoted` of their text as it stands on disk (every scalar call — quoted, typed — acts like that,
+`step_scall`), `write_header`, `start_mixed_mode` where the `MixedContainer` token stands, `write_operator`
+for every operator token, `write_end`.  Parameter blocks have no calls (`write_tape` writes them raw). -/
+def dcallsV : FVal → List Call
+  | .scal _ x => [.unquoted x.text]
+  | .empty _ _ => [.arrayStart, .end]
+  | .obj _ _ first rest _ => .objectStart :: (dcallsFirst first ++ (dcallsF rest ++ [.end]))
+  | .arrS _ _ s0 rest _ => .arrayStart :: (.unquoted s0.text :: (dcallsVs rest ++ [.end]))
+  | .arrC _ first rest _ => .arrayStart :: (dcallsV first ++ (dcallsVs rest ++ [.end]))
+  | .ghostIn _ _ _ v => dcallsV v
+  | .mixed .. => []
+  | .arrSM _ _ s0 pre _ m0 _ o items _ =>
+    .arrayStart :: (.unquoted s0.text :: (dcallsVs pre ++
+      (.mixedMode :: (.unquoted m0.text :: (.operator (opW o) :: (dcallsI items ++ [.end]))))))
+  | .arrCM _ first pre _ m0 _ o items _ =>
+    .arrayStart :: (dcallsV first ++ (dcallsVs pre ++
+      (.mixedMode :: (.unquoted m0.text :: (.operator (opW o) :: (dcallsI items ++ [.end]))))))
+def dcallsFirst : FFirst → List Call
+  | .kv k _ o v => .unquoted k.text :: (opCallsT o ++ dcallsV v)
+  | .flds f => dcallsF f
+def dcallsF : FFields → List Call
+  | .nil => []
+  | .cons _ k _ o v rest => .unquoted k.text :: (opCallsT o ++ (dcallsV v ++ dcallsF rest))
+  | .consImp _ k v rest => .unquoted k.text :: (dcallsV v ++ dcallsF rest)
+  | .ghost _ _ rest => dcallsF rest
+  | .consHdr _ k _ o _ h body rest => .unquoted k.text :: (opCallsT o ++ (.header h.bytes :: (dcallsV body ++ dcallsF rest)))
+  | .paramVal .. => []
+  | .paramObj .. => []
+  | .paramHdr .. => []
+def dcallsVs : FVals → List Call
+  | .nil => []
+  | .cons v rest => dcallsV v ++ dcallsVs rest
+def dcallsI : FItems → List Call
+  | .nil => []
+  | .scal _ x rest => .unquoted x.text :: dcallsI rest
+  | .op _ o rest => .operator (opW o) :: dcallsI rest
+  | .cont v rest => dcallsV v ++ dcallsI rest
+end
+
+mutual
+/-- the documents `dcallsF` describes: no parameter blocks; and in the array part of a mixed array no
+operator behind a container (there `write_operator` finds the mixed mode switched off by the container's
+`write_end`, takes its object branch and flips the writer into object mode: later bare elements `f g`
+come out as `f=g` — witnessed on the real code) -/
+def CallsOKV : FVal → Prop
+  | .scal .. => True
+  | .empty .. => True
+  | .obj _ _ first rest _ => CallsOKFirst first ∧ CallsOKF rest
+  | .arrS _ _ _ rest _ => CallsOKVs rest
+  | .arrC _ first rest _ => CallsOKV first ∧ CallsOKVs rest
+  | .ghostIn _ _ _ v => CallsOKV v
+  | .mixed .. => False
+  | .arrSM _ _ _ pre _ _ _ _ items _ => CallsOKVs pre ∧ CallsOKI false items
+  | .arrCM _ first pre _ _ _ _ items _ => CallsOKV first ∧ CallsOKVs pre ∧ CallsOKI false items
+def CallsOKFirst : FFirst → Prop
+  | .kv _ _ _ v => CallsOKV v
+  | .flds f => CallsOKF f
+def CallsOKF : FFields → Prop
+  | .nil => True
+  | .cons _ _ _ _ v rest => CallsOKV v ∧ CallsOKF rest
+  | .consImp _ _ v rest => CallsOKV v ∧ CallsOKF rest
+  | .ghost _ _ rest => CallsOKF rest
+  | .consHdr _ _ _ _ _ _ body rest => CallsOKV body ∧ CallsOKF rest
+  | .paramVal .. => False
+  | .paramObj .. => False
+  | .paramHdr .. => False
+def CallsOKVs : FVals → Prop
+  | .nil => True
+  | .cons v rest => CallsOKV v ∧ CallsOKVs rest
+def CallsOKI (afterCont : Bool) : FItems → Prop
+  | .nil => True
+  | .scal _ _ rest => CallsOKI afterCont rest
+  | .op _ _ rest => afterCont = false ∧ CallsOKI afterCont rest
+  | .cont v rest => CallsOKV v ∧ CallsOKI true rest
+end
+
 end Jomini.Writer.Spec
